@@ -175,7 +175,7 @@ class C07(Check):
         return {"kind": "threads", "threaded": rng.random() < 0.5, "users": users, "progs": progs, "sched": sched}
 
     def generate(self, rng, tier):
-        n = 260 if tier == "quick" else 1500
+        n = 800 if tier == "quick" else 3000
         for i in range(n):
             yield self.gen_threads_case(rng, big=(i % 10 == 9))
         if tier == "thorough":
@@ -822,14 +822,55 @@ class C07(Check):
                                      "quiescent": self.stats["quiescent"], "deadlock": self.stats["deadlock"]}}
 
     technique = ("Lean 4 proof of invariants of an interleaving transition system (one atomic action per Python statement that touches "
-                 "shared state; any number of foreign threads; all interleavings incl. polling time-outs) + site-order obligation "
-                 "(ast translator vs the model's table, `decide`) + trace validation of real executions under a forced thread scheduler "
-                 "+ independent property oracle")
-    level_text = ""
-    level_note = ""
-    rule = ""
-    trusted_base = []
-    assumptions = []
+                 "shared state; any number of foreign threads with arbitrary programs; all interleavings incl. polling time-outs at any "
+                 "moment) + site-order obligation (ast translator output = the model's statement table, by `decide`) + trace validation: "
+                 "real executions under a forced thread scheduler are replayed through the model's `step` + independent property oracle; "
+                 "cooperative Lock: sequential model, invariant over all operation sequences, op-by-op correspondence")
+    level_text = ("PROVED (Lean, no sorry/own axioms), about Model/Handoff.lean, for every reachable state of every interleaving, any number of "
+                  "foreign threads, threaded and inline hub: calllater_once/calllater_order (submitted = executed ++ in-flight ++ pending as "
+                  "lists, no duplicates, executed only by the scheduler thread, per-submitter order); sync_excludes/sync_mutual (a foreign "
+                  "thread inside synchronized() => the scheduler thread is parked in that thread's SyncTask at outlock.acquire(); at most one "
+                  "thread inside); schedule_atmost1 (a task woken through schedule() occurs at most once in `ready`, never while it runs or is "
+                  "about to be re-queued) and schedule_wake_kept (when a ScheduleTask ends its target is in `ready`); wake_noticed (parked in "
+                  "Event.wait/select with `ready` non-empty => flag set / pipe non-empty or some thread's next action sets/pings it; deque of "
+                  "calls non-empty => CallLaterTask's pipe non-empty, or a ping is the next action of some thread, or the task is in its drain "
+                  "loop); hub_mode. About Model/CoopLock.lean, for every operation sequence of any number of tasks that only release what they "
+                  "were handed: lock_excl (believers = the holder, at most one; no waiter while free), lock_handoff (release wakes exactly the "
+                  "popped waiter, who becomes holder; none if nobody waits); lock_excl_needs_discipline shows the hypothesis is necessary. "
+                  "TIED to the source on every run by (a) sites_agree: the ast translator's per-function statement lists equal the model's table "
+                  "(a statement that disappears, changes, moves, or a new attribute-touching statement breaks the build), sites_anchored: every "
+                  "model action is anchored at exactly one statement; (b) trace validation: each forced-schedule run of the real Scheduler/"
+                  "SelectHub/CallLaterTask/ScheduleTask/Synchronizer is replayed action by action through `step` and must be accepted and end "
+                  "in the same observables; the real Lock is compared operation by operation with the model.  TESTED only (oracle on the real "
+                  "runs): callbacks run exactly once on the scheduler thread in order, no duplicate in `ready`, no cooperative code inside a "
+                  "foreign thread's section, no wake-up noticed only by time-out, quiescence reached without deadlock.")
+    level_note = ("Partial with respect to the runtime, and stated as such: the theorems are about the hand-written site-level model; that each "
+                  "site is atomic rests on the GIL (C-level deque/Lock/Event/pipe operations are not interleaved); trace validation shows that "
+                  "the real executions that were run are model executions, never the converse, and the schedules explored are bounded "
+                  "(PCT/random for the seeded cases; in the thorough tier every schedule with <= 2 pre-emptions of the listed 1-3-thread "
+                  "scenarios, see evidence.bounded_exhaustive, pre-emption points = model actions and primitive operations only — statements "
+                  "tagged thread-local are not pre-emption points, which is sound because they commute).  Threads run under a forced scheduler "
+                  "(one OS thread at a time, virtual blocking, Lock/Event/Queue/pinger/select replaced by instrumented versions; the pipe "
+                  "pinger's byte-counter semantics is checked separately against the real PipePinger); real OS scheduling, real time-outs, epoll "
+                  "and free-threaded builds are not exercised.  Not modelled (C06's territory): timers and fd waits of ordinary tasks, "
+                  "priorities < 1, quit, CallBlocking, and schedule()/callLater() calls made by cooperative tasks themselves (direct branch of "
+                  "schedule, recoco.py schedule() lines `if task in self._ready` ... `return True`).  Known unmodelled hazard (by reading, not "
+                  "reproduced): schedule(t) for a task t that is at the same time parked in the *threaded* hub (Select/Sleep with time-out) "
+                  "races with the hub thread's own fast_schedule(t); nothing in the tree does that.  The liveness reading of 'runs exactly "
+                  "once' (eventually executed) is covered by wake_noticed + the quiescence oracle, not by a temporal theorem.")
+    rule = ("threads case = (hub mode, user-task yield programs, per-foreign-thread operation lists over {callLater, schedule(u), syncEnter, "
+            "syncExit}, schedule = PCT(seed,d,k) | random(seed) | baseline + explicit pre-emptions); lock case = per-task programs over "
+            "{acquire(l, blocking), release(l), yield} on 1-2 locks, 2-4 tasks; pinger case = ping/pongAll sequence; distinct = sha1 of the "
+            "canonical case; non-trivial = the executed trace switches threads at least 4 times (threads) / some task had to wait (lock)")
+    trusted_base = ["Model/Handoff.lean, Model/CoopLock.lean, Model/HandoffSites.lean hand-written from recoco.py; tied by sites_agree + trace validation",
+                    "harness/translate/sites.py (decides which statements are listed) and harness/forcedthreads.py (forced scheduler, replaced primitives)",
+                    "mapping of line/primitive events to model actions in harness/c07.py (SITE_KIND + the model's table served by the driver)"]
+    assumptions = ["GIL: each modelled site (deque append/popleft/__contains__, attribute read/write, threading.Lock/Event operation, one-byte pipe "
+                   "write / read) is atomic with respect to other threads",
+                   "select returns every readable descriptor; os.read on the empty blocking pinger pipe blocks; pongAll drains up to 1024 bytes",
+                   "tasks handed to schedule() are not simultaneously parked in the select hub; a task does not schedule itself",
+                   "cooperative Lock: a task only releases a lock it was handed (same contract as threading.Lock)",
+                   "assert statements are live (no -O); the scheduler is the default scheduler (BaseTask.start uses defaultScheduler)"]
 
 
 class _Stub:
